@@ -1,6 +1,1159 @@
 package sym
 
-type vfs struct{}
+import (
+	"fmt"
+	"go/types"
+	"strings"
 
-func registerVFS(p *Program) {}
-func registerTimeRand(p *Program) {}
+	"golang.org/x/tools/go/ssa"
+)
+
+// In-engine POSIX-like file system (DESIGN §3, App. B). Paths may contain symbolic bytes;
+// shapes (lengths, separator positions) are concrete per path condition.
+
+type inode struct {
+	id      int
+	kind    byte // 'f' file, 'd' dir, 'l' symlink, 'p' other (fifo/socket/device)
+	data    []*Term
+	entries []*dirent
+	perm    *Term // BV32 permission + special bits (low 12 bits of the mode)
+	target  Str   // symlink target
+}
+
+type dirent struct {
+	name Str
+	ino  *inode
+}
+
+type vfile struct {
+	ino     *inode
+	off     int
+	flags   int
+	name    Str
+	closed  bool
+	order   []int // directory listing order (fixed at first read)
+	dirPos  int
+	write   bool
+	read    bool
+	path    string // resolved path (diagnostic)
+	parent  *inode
+}
+
+type fsEvent struct {
+	Op    string
+	Path  string // resolved, '?' for symbolic bytes
+	PathS Str
+	Ino   int
+	Dir   int // inode id of the directory whose entry changes (create/rename/unlink/mkdir)
+	Dir2  int
+	Ino2  int
+	N     int
+	Flags int
+	Err   string
+	Name  Str
+	Name2 Str
+	Data  []*Term
+}
+
+type vfs struct {
+	in          *Interp
+	root        *inode
+	nextIno     int
+	trace       []fsEvent
+	tracing     bool
+	faultArmed  bool
+	faultFired  bool
+	faultDesc   string
+	permute     bool
+	tmpCount    int
+	randCount   int
+	snaps       []*inode
+}
+
+const (
+	oRDONLY = 0x0
+	oWRONLY = 0x1
+	oRDWR   = 0x2
+	oCREATE = 0x40
+	oEXCL   = 0x80
+	oTRUNC  = 0x200
+	oAPPEND = 0x400
+)
+
+const (
+	eNOENT    = 2
+	eIO       = 5
+	eBADF     = 9
+	eACCES    = 13
+	eEXIST    = 17
+	eNOTDIR   = 20
+	eISDIR    = 21
+	eINVAL    = 22
+	eMFILE    = 24
+	eNOSPC    = 28
+	eNOTEMPTY = 39
+)
+
+var errnoText = map[int]string{eNOENT: "no such file or directory", eIO: "input/output error", eBADF: "bad file descriptor", eACCES: "permission denied",
+	eEXIST: "file exists", eNOTDIR: "not a directory", eISDIR: "is a directory", eINVAL: "invalid argument", eMFILE: "too many open files",
+	eNOSPC: "no space left on device", eNOTEMPTY: "directory not empty"}
+
+func (e *envState) FS() *vfs {
+	if e.fs == nil {
+		fs := &vfs{in: e.in}
+		fs.root = fs.newInode('d', 0755)
+		e.fs = fs
+	}
+	return e.fs
+}
+
+func (fs *vfs) newInode(kind byte, perm uint32) *inode {
+	fs.nextIno++
+	return &inode{id: fs.nextIno, kind: kind, perm: fs.in.ts.Const(32, uint64(perm))}
+}
+
+func (fs *vfs) event(ev fsEvent) {
+	if fs.tracing {
+		fs.trace = append(fs.trace, ev)
+	}
+}
+
+// splitPath splits a path into components, forking on which bytes are '/'.
+func (fs *vfs) splitPath(p Str) (abs bool, comps []Str) {
+	in := fs.in
+	start := 0
+	slash := in.byteConst('/')
+	for i := 0; i <= len(p.B); i++ {
+		isSep := i == len(p.B)
+		if !isSep {
+			isSep = in.Branch(in.ts.Eq(p.B[i], slash))
+		}
+		if isSep {
+			if i == 0 && len(p.B) > 0 {
+				abs = true
+			}
+			if i > start {
+				comps = append(comps, Str{p.B[start:i]})
+			}
+			start = i + 1
+		}
+	}
+	return
+}
+
+func (fs *vfs) lookupEntry(d *inode, name Str) *dirent {
+	for _, e := range d.entries {
+		if fs.in.Branch(fs.in.strEq(e.name, name)) {
+			return e
+		}
+	}
+	return nil
+}
+
+type resolved struct {
+	parent *inode
+	name   Str
+	ino    *inode // nil if the last component does not exist
+	errno  int
+	path   string
+}
+
+// resolve walks the path. followLast: follow a symlink in the last component.
+func (fs *vfs) resolve(p Str, followLast bool) resolved {
+	in := fs.in
+	if len(p.B) == 0 {
+		return resolved{errno: eNOENT}
+	}
+	// NUL bytes make the kernel reject the path (Go returns EINVAL before the syscall)
+	for _, b := range p.B {
+		if in.Branch(in.ts.Eq(b, in.byteConst(0))) {
+			return resolved{errno: eINVAL, path: p.Show()}
+		}
+	}
+	abs, comps := fs.splitPath(p)
+	if !abs {
+		// relative paths resolve against "/" (the harness always uses absolute temp dirs)
+	}
+	cur := fs.root
+	var stack []*inode
+	var names []string
+	dot := in.strConst(".")
+	dotdot := in.strConst("..")
+	for i, c := range comps {
+		last := i == len(comps)-1
+		if cur.kind != 'd' {
+			return resolved{errno: eNOTDIR, path: "/" + strings.Join(names, "/")}
+		}
+		if in.Branch(in.strEq(c, dot)) {
+			if last {
+				return resolved{parent: nil, ino: cur, name: c, path: "/" + strings.Join(names, "/")}
+			}
+			continue
+		}
+		if in.Branch(in.strEq(c, dotdot)) {
+			if len(stack) > 0 {
+				cur = stack[len(stack)-1]
+				stack = stack[:len(stack)-1]
+				names = names[:len(names)-1]
+			}
+			if last {
+				return resolved{parent: nil, ino: cur, name: c, path: "/" + strings.Join(names, "/")}
+			}
+			continue
+		}
+		e := fs.lookupEntry(cur, c)
+		if last {
+			r := resolved{parent: cur, name: c, path: "/" + strings.Join(append(names, c.Show()), "/")}
+			if e != nil {
+				r.ino = e.ino
+				if e.ino.kind == 'l' && followLast {
+					t := fs.resolve(e.ino.target, true)
+					if t.errno != 0 || t.ino == nil {
+						r.ino = nil
+						r.errno = eNOENT
+						return r
+					}
+					r.ino = t.ino
+				}
+			}
+			return r
+		}
+		if e == nil {
+			return resolved{errno: eNOENT, path: "/" + strings.Join(append(names, c.Show()), "/")}
+		}
+		nxt := e.ino
+		if nxt.kind == 'l' {
+			t := fs.resolve(nxt.target, true)
+			if t.errno != 0 || t.ino == nil {
+				return resolved{errno: eNOENT}
+			}
+			nxt = t.ino
+		}
+		stack = append(stack, cur)
+		names = append(names, c.Show())
+		cur = nxt
+	}
+	// path was "/" or only separators
+	return resolved{parent: nil, ino: cur, path: "/"}
+}
+
+// fault decides whether the current call fails in single-fault mode.
+func (fs *vfs) fault(op string, errno int) int {
+	if !fs.faultArmed || fs.faultFired {
+		return 0
+	}
+	if fs.in.Choose(2) == 1 {
+		fs.faultFired = true
+		fs.faultDesc = fmt.Sprintf("%s#%d:%s", op, len(fs.trace), errnoText[errno])
+		fs.in.env.extra["fault"] = fs.faultDesc
+		return errno
+	}
+	return 0
+}
+
+// ---------------------------------------------------------------------------
+// value constructors for real os / io/fs types
+
+func (in *Interp) namedType(pkg, name string) types.Type {
+	p := in.P.Pkgs[pkg]
+	if p == nil {
+		panic(engineErr("package %s not loaded", pkg))
+	}
+	m := p.Type(name)
+	if m == nil {
+		panic(engineErr("type %s.%s not found", pkg, name))
+	}
+	return m.Type()
+}
+
+func (in *Interp) errnoValue(errno int) Iface {
+	return Iface{T: in.namedType("syscall", "Errno"), V: in.ts.Const(64, uint64(errno))}
+}
+
+func (in *Interp) pathError(op string, path Str, errno int) Iface {
+	t := in.namedType("io/fs", "PathError")
+	o := in.newObj(t)
+	o.Slots[0] = in.strConst(op)
+	o.Slots[1] = path
+	o.Slots[2] = in.errnoValue(errno)
+	return Iface{T: types.NewPointer(t), V: Ptr{Obj: o}}
+}
+
+func (in *Interp) setField(o *Obj, t types.Type, field string, v Value) {
+	st := under(t).(*types.Struct)
+	for i := 0; i < st.NumFields(); i++ {
+		if st.Field(i).Name() == field {
+			in.storeAt(o, in.fieldOffset(st, i), st.Field(i).Type(), v)
+			return
+		}
+	}
+	panic(engineErr("no field %s in %v", field, t))
+}
+
+func (fs *vfs) modeTerm(ino *inode) *Term {
+	ts := fs.in.ts
+	// Go FileMode: ModeDir 1<<31, ModeSymlink 1<<27, ModeNamedPipe 1<<25
+	var typ uint64
+	switch ino.kind {
+	case 'd':
+		typ = 1 << 31
+	case 'l':
+		typ = 1 << 27
+	case 'p':
+		typ = 1 << 25
+	}
+	return ts.BvOr(ts.Const(32, typ), ts.BvAnd(ino.perm, ts.Const(32, 0777)))
+}
+
+func (fs *vfs) fileInfo(name Str, ino *inode) Iface {
+	in := fs.in
+	t := in.namedType("os", "fileStat")
+	o := in.newObj(t)
+	in.setField(o, t, "name", name)
+	in.setField(o, t, "size", in.intConst(int64(len(ino.data))))
+	in.setField(o, t, "mode", fs.modeTerm(ino))
+	return Iface{T: types.NewPointer(t), V: Ptr{Obj: o}}
+}
+
+func (fs *vfs) dirEntry(name Str, ino *inode) Iface {
+	in := fs.in
+	t := in.namedType("os", "unixDirent")
+	o := in.newObj(t)
+	in.setField(o, t, "name", name)
+	ts := in.ts
+	in.setField(o, t, "typ", ts.BvAnd(fs.modeTerm(ino), ts.Const(32, 0x8f280000))) // ModeType bits
+	in.setField(o, t, "info", fs.fileInfo(name, ino))
+	return Iface{T: types.NewPointer(t), V: Ptr{Obj: o}}
+}
+
+func (fs *vfs) newFile(f *vfile) Ptr {
+	in := fs.in
+	t := in.namedType("os", "File")
+	o := in.newObj(t)
+	o.Tag = f
+	return Ptr{Obj: o}
+}
+
+func fileOf(v Value) *vfile {
+	p, ok := v.(Ptr)
+	if !ok || p.Obj == nil {
+		return nil
+	}
+	f, _ := p.Obj.Tag.(*vfile)
+	return f
+}
+
+func errTuple(in *Interp, e Iface) Value { return e }
+
+// ---------------------------------------------------------------------------
+// operations
+
+func (fs *vfs) openFile(name Str, flags int, perm uint32) (Ptr, Iface) {
+	in := fs.in
+	if en := fs.fault("open", eACCES); en != 0 {
+		fs.event(fsEvent{Op: "open", Path: name.Show(), PathS: name, Flags: flags, Err: errnoText[en]})
+		return Ptr{}, in.pathError("open", name, en)
+	}
+	r := fs.resolve(name, true)
+	fail := func(en int) (Ptr, Iface) {
+		fs.event(fsEvent{Op: "open", Path: r.path, PathS: name, Flags: flags, Err: errnoText[en]})
+		return Ptr{}, in.pathError("open", name, en)
+	}
+	if r.errno != 0 {
+		return fail(r.errno)
+	}
+	created := false
+	if r.ino == nil {
+		if flags&oCREATE == 0 {
+			return fail(eNOENT)
+		}
+		if r.parent == nil {
+			return fail(eISDIR)
+		}
+		// trailing dot / dotdot names cannot be created
+		ino := fs.newInode('f', perm)
+		r.parent.entries = append(r.parent.entries, &dirent{name: r.name, ino: ino})
+		r.ino = ino
+		created = true
+	} else {
+		if flags&oCREATE != 0 && flags&oEXCL != 0 {
+			return fail(eEXIST)
+		}
+		if r.ino.kind == 'd' && flags&(oWRONLY|oRDWR) != 0 {
+			return fail(eISDIR)
+		}
+		if flags&oTRUNC != 0 && r.ino.kind == 'f' && flags&(oWRONLY|oRDWR) != 0 {
+			r.ino.data = nil
+			fs.event(fsEvent{Op: "truncate", Path: r.path, PathS: name, Ino: r.ino.id})
+		}
+	}
+	ev := fsEvent{Op: "open", Path: r.path, PathS: name, Ino: r.ino.id, Flags: flags, Name: r.name}
+	if r.parent != nil {
+		ev.Dir = r.parent.id
+	}
+	if created {
+		ev.Op = "create"
+	}
+	fs.event(ev)
+	f := &vfile{ino: r.ino, flags: flags, name: name, path: r.path, parent: r.parent}
+	f.write = flags&(oWRONLY|oRDWR) != 0
+	f.read = flags&oWRONLY == 0
+	return fs.newFile(f), Iface{}
+}
+
+func (fs *vfs) stat(name Str, follow bool) (Iface, Iface) {
+	in := fs.in
+	if en := fs.fault("stat", eACCES); en != 0 {
+		fs.event(fsEvent{Op: "stat", Path: name.Show(), PathS: name, Err: errnoText[en]})
+		return Iface{}, in.pathError("stat", name, en)
+	}
+	r := fs.resolve(name, follow)
+	if r.errno == 0 && r.ino == nil {
+		r.errno = eNOENT
+	}
+	if r.errno != 0 {
+		fs.event(fsEvent{Op: "stat", Path: r.path, PathS: name, Err: errnoText[r.errno]})
+		return Iface{}, in.pathError("stat", name, r.errno)
+	}
+	fs.event(fsEvent{Op: "stat", Path: r.path, PathS: name, Ino: r.ino.id})
+	base := name
+	if r.parent != nil {
+		base = r.name
+	}
+	return fs.fileInfo(base, r.ino), Iface{}
+}
+
+func (fs *vfs) mkdir(name Str, perm uint32) Iface {
+	in := fs.in
+	if en := fs.fault("mkdir", eNOSPC); en != 0 {
+		fs.event(fsEvent{Op: "mkdir", Path: name.Show(), PathS: name, Err: errnoText[en]})
+		return in.pathError("mkdir", name, en)
+	}
+	r := fs.resolve(name, false)
+	en := r.errno
+	if en == 0 && r.ino != nil {
+		en = eEXIST
+	}
+	if en == 0 && r.parent == nil {
+		en = eEXIST
+	}
+	if en != 0 {
+		fs.event(fsEvent{Op: "mkdir", Path: r.path, PathS: name, Err: errnoText[en]})
+		return in.pathError("mkdir", name, en)
+	}
+	ino := fs.newInode('d', perm)
+	r.parent.entries = append(r.parent.entries, &dirent{name: r.name, ino: ino})
+	fs.event(fsEvent{Op: "mkdir", Path: r.path, PathS: name, Ino: ino.id, Dir: r.parent.id, Name: r.name})
+	return Iface{}
+}
+
+func (fs *vfs) remove(name Str) Iface {
+	in := fs.in
+	if en := fs.fault("unlink", eACCES); en != 0 {
+		fs.event(fsEvent{Op: "unlink", Path: name.Show(), PathS: name, Err: errnoText[en]})
+		return in.pathError("remove", name, en)
+	}
+	r := fs.resolve(name, false)
+	en := r.errno
+	if en == 0 && (r.ino == nil || r.parent == nil) {
+		en = eNOENT
+	}
+	if en == 0 && r.ino.kind == 'd' && len(r.ino.entries) > 0 {
+		en = eNOTEMPTY
+	}
+	if en != 0 {
+		fs.event(fsEvent{Op: "unlink", Path: r.path, PathS: name, Err: errnoText[en]})
+		return in.pathError("remove", name, en)
+	}
+	fs.unlinkEntry(r.parent, r.ino)
+	fs.event(fsEvent{Op: "unlink", Path: r.path, PathS: name, Ino: r.ino.id, Dir: r.parent.id, Name: r.name})
+	return Iface{}
+}
+
+func (fs *vfs) unlinkEntry(d *inode, ino *inode) {
+	ne := make([]*dirent, 0, len(d.entries))
+	for _, e := range d.entries {
+		if e.ino != ino {
+			ne = append(ne, e)
+		}
+	}
+	d.entries = ne
+}
+
+func (fs *vfs) rename(from, to Str) Iface {
+	in := fs.in
+	if en := fs.fault("rename", eNOSPC); en != 0 {
+		fs.event(fsEvent{Op: "rename", Path: from.Show() + " -> " + to.Show(), PathS: from, Err: errnoText[en]})
+		return in.pathError("rename", from, en)
+	}
+	a := fs.resolve(from, false)
+	b := fs.resolve(to, false)
+	en := a.errno
+	if en == 0 && (a.ino == nil || a.parent == nil) {
+		en = eNOENT
+	}
+	if en == 0 {
+		en = b.errno
+	}
+	if en == 0 && b.parent == nil {
+		en = eEXIST
+	}
+	if en == 0 && b.ino != nil {
+		if b.ino.kind == 'd' && a.ino.kind != 'd' {
+			en = eISDIR
+		} else if b.ino.kind != 'd' && a.ino.kind == 'd' {
+			en = eNOTDIR
+		} else if b.ino.kind == 'd' && len(b.ino.entries) > 0 {
+			en = eNOTEMPTY
+		}
+	}
+	if en != 0 {
+		fs.event(fsEvent{Op: "rename", Path: a.path + " -> " + b.path, PathS: from, Err: errnoText[en]})
+		return in.pathError("rename", from, en)
+	}
+	if b.ino == a.ino {
+		fs.event(fsEvent{Op: "rename", Path: a.path + " -> " + b.path, PathS: from, Ino: a.ino.id, Dir: a.parent.id, Dir2: b.parent.id, Name: a.name, Name2: b.name})
+		return Iface{}
+	}
+	old := 0
+	var srcEnt *dirent
+	for _, e := range a.parent.entries {
+		if e.ino == a.ino {
+			srcEnt = e
+		}
+	}
+	if b.ino != nil {
+		old = b.ino.id
+		for _, e := range b.parent.entries {
+			if e.ino == b.ino {
+				e.ino = a.ino // the target name now refers to the source inode (atomic replace)
+			}
+		}
+		fs.removeDirent(a.parent, srcEnt)
+	} else {
+		fs.removeDirent(a.parent, srcEnt)
+		b.parent.entries = append(b.parent.entries, &dirent{name: b.name, ino: a.ino})
+	}
+	fs.event(fsEvent{Op: "rename", Path: a.path + " -> " + b.path, PathS: from, Ino: a.ino.id, Ino2: old, Dir: a.parent.id, Dir2: b.parent.id, Name: a.name, Name2: b.name})
+	return Iface{}
+}
+
+func (fs *vfs) removeDirent(d *inode, ent *dirent) {
+	ne := make([]*dirent, 0, len(d.entries))
+	for _, e := range d.entries {
+		if e != ent {
+			ne = append(ne, e)
+		}
+	}
+	d.entries = ne
+}
+
+// ---------------------------------------------------------------------------
+
+func registerVFS(p *Program) {
+	I := p.Intr
+	tupErr := func(in *Interp, v Value, e Iface) Value { return Tuple{v, e} }
+
+	I["os.OpenFile"] = func(in *Interp, fr *frame, a []Value) Value {
+		fs := in.env.FS()
+		flags := in.concInt(a[1])
+		perm := uint32(in.concInt(in.ts.Resize(a[2].(*Term), 64, false)))
+		f, e := fs.openFile(a[0].(Str), flags, perm&0777)
+		return tupErr(in, f, e)
+	}
+	I["os.Stat"] = func(in *Interp, fr *frame, a []Value) Value {
+		fi, e := in.env.FS().stat(a[0].(Str), true)
+		return tupErr(in, fi, e)
+	}
+	I["os.Lstat"] = func(in *Interp, fr *frame, a []Value) Value {
+		fi, e := in.env.FS().stat(a[0].(Str), false)
+		return tupErr(in, fi, e)
+	}
+	I["os.Mkdir"] = func(in *Interp, fr *frame, a []Value) Value {
+		perm := uint32(in.concInt(in.ts.Resize(a[1].(*Term), 64, false)))
+		return in.env.FS().mkdir(a[0].(Str), perm&0777)
+	}
+	I["os.Remove"] = func(in *Interp, fr *frame, a []Value) Value { return in.env.FS().remove(a[0].(Str)) }
+	I["os.Rename"] = func(in *Interp, fr *frame, a []Value) Value {
+		return in.env.FS().rename(a[0].(Str), a[1].(Str))
+	}
+	I["os.Chmod"] = func(in *Interp, fr *frame, a []Value) Value {
+		fs := in.env.FS()
+		r := fs.resolve(a[0].(Str), true)
+		if r.errno != 0 || r.ino == nil {
+			return in.pathError("chmod", a[0].(Str), eNOENT)
+		}
+		r.ino.perm = in.ts.BvAnd(a[1].(*Term), in.ts.Const(32, 07777))
+		fs.event(fsEvent{Op: "chmod", Path: r.path, Ino: r.ino.id})
+		return Iface{}
+	}
+	I["os.Symlink"] = func(in *Interp, fr *frame, a []Value) Value {
+		fs := in.env.FS()
+		r := fs.resolve(a[1].(Str), false)
+		if r.errno != 0 || r.ino != nil || r.parent == nil {
+			return in.pathError("symlink", a[1].(Str), eEXIST)
+		}
+		ino := fs.newInode('l', 0777)
+		ino.target = a[0].(Str)
+		r.parent.entries = append(r.parent.entries, &dirent{name: r.name, ino: ino})
+		fs.event(fsEvent{Op: "symlink", Path: r.path, Ino: ino.id, Dir: r.parent.id, Name: r.name})
+		return Iface{}
+	}
+	I["os.nextRandom"] = func(in *Interp, fr *frame, a []Value) Value {
+		fs := in.env.FS()
+		fs.randCount++
+		return in.strConst(fmt.Sprintf("9%09d", fs.randCount))
+	}
+	I["os.LookupEnv"] = func(in *Interp, fr *frame, a []Value) Value { return Tuple{Str{}, in.ts.False} }
+	I["os.Getenv"] = func(in *Interp, fr *frame, a []Value) Value { return Str{} }
+	I["os.Environ"] = func(in *Interp, fr *frame, a []Value) Value {
+		sl := Slice{Obj: in.newArray(types.Typ[types.String], 1), Len: 1, Cap: 1}
+		sl.Obj.Slots[0] = in.strConst("VP_ENV=1")
+		return sl
+	}
+	I["os.ReadFile"] = func(in *Interp, fr *frame, a []Value) Value {
+		fs := in.env.FS()
+		f, e := fs.openFile(a[0].(Str), oRDONLY, 0)
+		if e.T != nil {
+			return Tuple{Slice{}, e}
+		}
+		vf := fileOf(f)
+		if vf.ino.kind == 'd' {
+			return Tuple{Slice{}, in.pathError("read", a[0].(Str), eISDIR)}
+		}
+		fs.event(fsEvent{Op: "read", Path: vf.path, Ino: vf.ino.id, N: len(vf.ino.data)})
+		fs.event(fsEvent{Op: "close", Path: vf.path, Ino: vf.ino.id})
+		if len(vf.ino.data) == 0 {
+			return Tuple{Slice{Obj: in.newArray(types.Typ[types.Byte], 0)}, Iface{}}
+		}
+		return Tuple{in.newByteSlice(vf.ino.data), Iface{}}
+	}
+	I["os.WriteFile"] = func(in *Interp, fr *frame, a []Value) Value {
+		fs := in.env.FS()
+		perm := uint32(in.concInt(in.ts.Resize(a[2].(*Term), 64, false)))
+		f, e := fs.openFile(a[0].(Str), oWRONLY|oCREATE|oTRUNC, perm&0777)
+		if e.T != nil {
+			return e
+		}
+		vf := fileOf(f)
+		data := in.sliceBytesOrNil(a[1].(Slice))
+		vf.ino.data = append([]*Term(nil), data...)
+		fs.event(fsEvent{Op: "write", Path: vf.path, Ino: vf.ino.id, N: len(data), Data: data})
+		fs.event(fsEvent{Op: "close", Path: vf.path, Ino: vf.ino.id})
+		return Iface{}
+	}
+
+	// ---- *os.File methods ----
+	badf := func(in *Interp, op string) Iface { return in.pathError(op, Str{}, eBADF) }
+	I["(*os.File).Name"] = func(in *Interp, fr *frame, a []Value) Value {
+		f := fileOf(a[0])
+		if f == nil {
+			panic(in.goPanicStr("runtime error: invalid memory address or nil pointer dereference"))
+		}
+		return f.name
+	}
+	I["(*os.File).Close"] = func(in *Interp, fr *frame, a []Value) Value {
+		f := fileOf(a[0])
+		if f == nil {
+			return in.newErrorf("invalid argument")
+		}
+		if f.closed {
+			return in.pathError("close", f.name, eBADF)
+		}
+		f.closed = true
+		in.env.FS().event(fsEvent{Op: "close", Path: f.path, Ino: f.ino.id})
+		return Iface{}
+	}
+	I["(*os.File).Sync"] = func(in *Interp, fr *frame, a []Value) Value {
+		f := fileOf(a[0])
+		fs := in.env.FS()
+		if f == nil || f.closed {
+			return badf(in, "sync")
+		}
+		if en := fs.fault("fsync", eIO); en != 0 {
+			fs.event(fsEvent{Op: "fsync", Path: f.path, Ino: f.ino.id, Err: errnoText[en]})
+			return in.pathError("sync", f.name, en)
+		}
+		fs.event(fsEvent{Op: "fsync", Path: f.path, Ino: f.ino.id})
+		return Iface{}
+	}
+	I["(*os.File).Stat"] = func(in *Interp, fr *frame, a []Value) Value {
+		f := fileOf(a[0])
+		fs := in.env.FS()
+		if f == nil || f.closed {
+			return Tuple{Iface{}, badf(in, "stat")}
+		}
+		if en := fs.fault("fstat", eIO); en != 0 {
+			fs.event(fsEvent{Op: "fstat", Path: f.path, Ino: f.ino.id, Err: errnoText[en]})
+			return Tuple{Iface{}, in.pathError("stat", f.name, en)}
+		}
+		fs.event(fsEvent{Op: "fstat", Path: f.path, Ino: f.ino.id})
+		// base name of the path as opened
+		name := f.name
+		for i := len(name.B) - 1; i >= 0; i-- {
+			if name.B[i].IsConst() && name.B[i].Val == '/' {
+				name = Str{name.B[i+1:]}
+				break
+			}
+		}
+		return Tuple{fs.fileInfo(name, f.ino), Iface{}}
+	}
+	readImpl := func(in *Interp, f *vfile, max int) ([]*Term, Iface) {
+		fs := in.env.FS()
+		if f == nil || f.closed || !f.read {
+			return nil, badf(in, "read")
+		}
+		if f.ino.kind == 'd' {
+			return nil, in.pathError("read", f.name, eISDIR)
+		}
+		if en := fs.fault("read", eIO); en != 0 {
+			fs.event(fsEvent{Op: "read", Path: f.path, Ino: f.ino.id, Err: errnoText[en]})
+			return nil, in.pathError("read", f.name, en)
+		}
+		n := len(f.ino.data) - f.off
+		if n < 0 {
+			n = 0
+		}
+		if n > max {
+			n = max
+		}
+		out := f.ino.data[f.off : f.off+n]
+		f.off += n
+		fs.event(fsEvent{Op: "read", Path: f.path, Ino: f.ino.id, N: n})
+		return out, Iface{}
+	}
+	I["(*os.File).Read"] = func(in *Interp, fr *frame, a []Value) Value {
+		f := fileOf(a[0])
+		buf := a[1].(Slice)
+		out, e := readImpl(in, f, buf.Len)
+		if e.T != nil {
+			return Tuple{in.intConst(0), e}
+		}
+		if len(out) == 0 && buf.Len > 0 {
+			return Tuple{in.intConst(0), in.load(Ptr{Obj: in.global(in.P.Pkgs["io"].Var("EOF"))}, in.P.Pkgs["io"].Var("EOF").Type().(*types.Pointer).Elem())}
+		}
+		for i, t := range out {
+			in.setSlot(buf.Obj, buf.Off+i, t)
+		}
+		return Tuple{in.intConst(int64(len(out))), Iface{}}
+	}
+	writeImpl := func(in *Interp, f *vfile, data []*Term) (int, Iface) {
+		fs := in.env.FS()
+		if f == nil || f.closed || !f.write {
+			if f != nil && !f.closed {
+				fs.event(fsEvent{Op: "write", Path: f.path, Ino: f.ino.id, Err: "bad file descriptor"})
+			}
+			return 0, badf(in, "write")
+		}
+		if en := fs.fault("write", eNOSPC); en != 0 {
+			fs.event(fsEvent{Op: "write", Path: f.path, Ino: f.ino.id, Err: errnoText[en]})
+			return 0, in.pathError("write", f.name, en)
+		}
+		off := f.off
+		if f.flags&oAPPEND != 0 {
+			off = len(f.ino.data)
+		}
+		nd := append([]*Term(nil), f.ino.data...)
+		for len(nd) < off {
+			nd = append(nd, in.byteConst(0))
+		}
+		for i, t := range data {
+			if off+i < len(nd) {
+				nd[off+i] = t
+			} else {
+				nd = append(nd, t)
+			}
+		}
+		f.ino.data = nd
+		f.off = off + len(data)
+		fs.event(fsEvent{Op: "write", Path: f.path, Ino: f.ino.id, N: len(data), Data: data})
+		return len(data), Iface{}
+	}
+	I["(*os.File).Write"] = func(in *Interp, fr *frame, a []Value) Value {
+		n, e := writeImpl(in, fileOf(a[0]), in.sliceBytesOrNil(a[1].(Slice)))
+		return Tuple{in.intConst(int64(n)), e}
+	}
+	I["(*os.File).WriteString"] = func(in *Interp, fr *frame, a []Value) Value {
+		n, e := writeImpl(in, fileOf(a[0]), a[1].(Str).B)
+		return Tuple{in.intConst(int64(n)), e}
+	}
+	// WriteTo copies the rest of the file to w (io.Copy semantics, one chunk).
+	I["(*os.File).WriteTo"] = func(in *Interp, fr *frame, a []Value) Value {
+		f := fileOf(a[0])
+		w := a[1].(Iface)
+		total := 0
+		for {
+			out, e := readImpl(in, f, 1<<30)
+			if e.T != nil {
+				return Tuple{in.intConst(int64(total)), e}
+			}
+			if len(out) == 0 {
+				return Tuple{in.intConst(int64(total)), Iface{}}
+			}
+			if wf := fileOf(w.V); wf != nil {
+				n, e := writeImpl(in, wf, out)
+				total += n
+				if e.T != nil {
+					return Tuple{in.intConst(int64(total)), e}
+				}
+			} else {
+				fn := in.lookupMethodByName(w.T, "Write")
+				r := in.call(fn, []Value{w.V, in.newByteSlice(out)}, nil, fr).(Tuple)
+				total += in.concInt(r[0])
+				if r[1].(Iface).T != nil {
+					return Tuple{in.intConst(int64(total)), r[1]}
+				}
+			}
+		}
+	}
+	// ReadFrom: not handled -> generic copy loop through r.Read
+	I["(*os.File).ReadFrom"] = func(in *Interp, fr *frame, a []Value) Value {
+		f := fileOf(a[0])
+		r := a[1].(Iface)
+		fn := in.lookupMethodByName(r.T, "Read")
+		total := 0
+		for iter := 0; iter < 1000; iter++ {
+			buf := Slice{Obj: in.newArray(types.Typ[types.Byte], 32768), Len: 32768, Cap: 32768}
+			res := in.call(fn, []Value{r.V, buf}, nil, fr).(Tuple)
+			n := in.concInt(res[0])
+			if n > 0 {
+				w, e := writeImpl(in, f, in.sliceBytes(Slice{Obj: buf.Obj, Off: 0, Len: n, Cap: n}))
+				total += w
+				if e.T != nil {
+					return Tuple{in.intConst(int64(total)), e}
+				}
+			}
+			if er := res[1].(Iface); er.T != nil {
+				if in.isEOF(er) {
+					return Tuple{in.intConst(int64(total)), Iface{}}
+				}
+				return Tuple{in.intConst(int64(total)), er}
+			}
+		}
+		panic(engineErr("ReadFrom: reader never ends"))
+	}
+	listDir := func(in *Interp, f *vfile, n int, op string) ([]*dirent, Iface) {
+		fs := in.env.FS()
+		if f == nil || f.closed {
+			return nil, badf(in, op)
+		}
+		if f.ino.kind != 'd' {
+			return nil, in.pathError(op, f.name, eNOTDIR)
+		}
+		if en := fs.fault("getdents", eIO); en != 0 {
+			fs.event(fsEvent{Op: "getdents", Path: f.path, Ino: f.ino.id, Err: errnoText[en]})
+			return nil, in.pathError(op, f.name, en)
+		}
+		if f.order == nil {
+			k := len(f.ino.entries)
+			f.order = make([]int, k)
+			for i := range f.order {
+				f.order[i] = i
+			}
+			if fs.permute && k > 1 && k <= 4 {
+				// choose a permutation (Lehmer code)
+				avail := append([]int(nil), f.order...)
+				for i := 0; i < k; i++ {
+					j := in.Choose(len(avail))
+					f.order[i] = avail[j]
+					avail = append(avail[:j], avail[j+1:]...)
+				}
+			}
+		}
+		rem := len(f.order) - f.dirPos
+		take := rem
+		if n > 0 && n < rem {
+			take = n
+		}
+		var out []*dirent
+		for i := 0; i < take; i++ {
+			idx := f.order[f.dirPos+i]
+			if idx < len(f.ino.entries) {
+				out = append(out, f.ino.entries[idx])
+			}
+		}
+		f.dirPos += take
+		fs.event(fsEvent{Op: "getdents", Path: f.path, Ino: f.ino.id, N: take})
+		if n > 0 && take == 0 {
+			return nil, in.eofIface()
+		}
+		return out, Iface{}
+	}
+	I["(*os.File).Readdirnames"] = func(in *Interp, fr *frame, a []Value) Value {
+		ents, e := listDir(in, fileOf(a[0]), in.concInt(a[1]), "readdirent")
+		sl := Slice{Obj: in.newArray(types.Typ[types.String], len(ents)), Len: len(ents), Cap: len(ents)}
+		for i, d := range ents {
+			sl.Obj.Slots[i] = d.name
+		}
+		if len(ents) == 0 && e.T != nil {
+			sl = Slice{}
+		}
+		return Tuple{sl, e}
+	}
+	I["(*os.File).ReadDir"] = func(in *Interp, fr *frame, a []Value) Value {
+		ents, e := listDir(in, fileOf(a[0]), in.concInt(a[1]), "readdirent")
+		it := in.namedType("io/fs", "DirEntry")
+		sl := Slice{Obj: in.newArray(it, len(ents)), Len: len(ents), Cap: len(ents)}
+		for i, d := range ents {
+			sl.Obj.Slots[i] = in.env.FS().dirEntry(d.name, d.ino)
+		}
+		if len(ents) == 0 && e.T != nil {
+			sl = Slice{}
+		}
+		return Tuple{sl, e}
+	}
+	I["(*os.File).Readdir"] = func(in *Interp, fr *frame, a []Value) Value {
+		ents, e := listDir(in, fileOf(a[0]), in.concInt(a[1]), "readdirent")
+		it := in.namedType("io/fs", "FileInfo")
+		sl := Slice{Obj: in.newArray(it, len(ents)), Len: len(ents), Cap: len(ents)}
+		for i, d := range ents {
+			sl.Obj.Slots[i] = in.env.FS().fileInfo(d.name, d.ino)
+		}
+		if len(ents) == 0 && e.T != nil {
+			sl = Slice{}
+		}
+		return Tuple{sl, e}
+	}
+	I["syscall.Errno.Error"] = func(in *Interp, fr *frame, a []Value) Value {
+		t := a[0].(*Term)
+		if t.IsConst() {
+			if s, ok := errnoText[int(t.Val)]; ok {
+				return in.strConst(s)
+			}
+		}
+		return in.strConst("errno")
+	}
+	I["(syscall.Errno).Error"] = I["syscall.Errno.Error"]
+
+	// ---- harness helpers (engine side) ----
+	I["vp:vpTempDir"] = func(in *Interp, fr *frame, a []Value) Value {
+		fs := in.env.FS()
+		fs.tmpCount++
+		was := fs.tracing
+		fs.tracing = false
+		vp := fs.lookupEntry(fs.root, in.strConst("vp"))
+		if vp == nil {
+			fs.mkdir(in.strConst("/vp"), 0755)
+		}
+		name := fmt.Sprintf("/vp/t%d", fs.tmpCount)
+		fs.mkdir(in.strConst(name), 0700)
+		fs.tracing = was
+		return in.strConst(name)
+	}
+	I["vp:vpTraceBegin"] = func(in *Interp, fr *frame, a []Value) Value {
+		fs := in.env.FS()
+		fs.tracing = true
+		fs.trace = nil
+		return nil
+	}
+	I["vp:vpTraceEnd"] = func(in *Interp, fr *frame, a []Value) Value {
+		in.env.FS().tracing = false
+		return nil
+	}
+	I["vp:vpFaultArm"] = func(in *Interp, fr *frame, a []Value) Value {
+		in.env.FS().faultArmed = true
+		return nil
+	}
+	I["vp:vpFaultDisarm"] = func(in *Interp, fr *frame, a []Value) Value {
+		in.env.FS().faultArmed = false
+		return nil
+	}
+	I["vp:vpFaultFired"] = func(in *Interp, fr *frame, a []Value) Value {
+		return in.ts.Bool(in.env.FS().faultFired)
+	}
+	I["vp:vpFsPermute"] = func(in *Interp, fr *frame, a []Value) Value {
+		in.env.FS().permute = a[0].(*Term).IsTrue()
+		return nil
+	}
+	// vpFsConfined(base): every open/create/write/rename/unlink/mkdir event recorded since vpTraceBegin
+	// concerns <base> itself, <base>/.tmp, an entry of <base>/.tmp, or <base>/<valid name>.user|.admin
+	I["vp:vpFsConfined"] = func(in *Interp, fr *frame, a []Value) Value {
+		fs := in.env.FS()
+		was := fs.tracing
+		fs.tracing = false
+		defer func() { fs.tracing = was }()
+		r := fs.resolve(a[0].(Str), true)
+		if r.ino == nil {
+			return in.ts.False
+		}
+		baseIno := r.ino
+		tmpID := -1
+		if e := fs.lookupEntry(baseIno, in.strConst(".tmp")); e != nil {
+			tmpID = e.ino.id
+		}
+		ts := in.ts
+		okName := func(n Str) *Term {
+			// ".tmp" or <valid>.user / <valid>.admin
+			if c, ok := n.Concrete(); ok && c == ".tmp" {
+				return ts.True
+			}
+			var alts []*Term
+			for _, ext := range []string{".user", ".admin"} {
+				if len(n.B) > len(ext) {
+					stem := Str{n.B[:len(n.B)-len(ext)]}
+					alts = append(alts, ts.And(in.strEq(Str{n.B[len(n.B)-len(ext):]}, in.strConst(ext)), in.validUserName(stem)))
+				}
+			}
+			return ts.Or(alts...)
+		}
+		var cs []*Term
+		for _, ev := range fs.trace {
+			switch ev.Op {
+			case "open", "create", "write", "unlink", "mkdir", "rename", "truncate", "chmod", "symlink":
+			default:
+				continue
+			}
+			if ev.Ino == baseIno.id || ev.Ino == tmpID && ev.Op != "rename" {
+				continue // the base directory or .tmp itself
+			}
+			dirOK := func(dir int, name Str) *Term {
+				if dir == tmpID && tmpID >= 0 {
+					return ts.True
+				}
+				if dir == baseIno.id {
+					return okName(name)
+				}
+				return ts.False
+			}
+			switch ev.Op {
+			case "write":
+				// writes go through an fd: the open/create event was checked
+				continue
+			case "rename":
+				cs = append(cs, dirOK(ev.Dir, ev.Name), dirOK(ev.Dir2, ev.Name2))
+			default:
+				if ev.Err != "" && ev.Ino == 0 {
+					// failed before reaching an object: judge by where it pointed, if known
+					if ev.Dir == 0 {
+						continue
+					}
+				}
+				cs = append(cs, dirOK(ev.Dir, ev.Name))
+			}
+		}
+		return ts.And(cs...)
+	}
+	// vpFsSnapshot(dir) -> handle; vpFsSame(h1,h2) -> bool term (same names, kinds, contents)
+	I["vp:vpFsSnapshot"] = func(in *Interp, fr *frame, a []Value) Value {
+		fs := in.env.FS()
+		was := fs.tracing
+		fs.tracing = false
+		armed := fs.faultArmed
+		fs.faultArmed = false
+		r := fs.resolve(a[0].(Str), true)
+		fs.tracing = was
+		fs.faultArmed = armed
+		if r.errno != 0 || r.ino == nil {
+			fs.snaps = append(fs.snaps, nil)
+		} else {
+			fs.snaps = append(fs.snaps, fs.cloneTree(r.ino))
+		}
+		return in.intConst(int64(len(fs.snaps) - 1))
+	}
+	I["vp:vpFsSame"] = func(in *Interp, fr *frame, a []Value) Value {
+		fs := in.env.FS()
+		x, y := fs.snaps[in.concInt(a[0])], fs.snaps[in.concInt(a[1])]
+		return fs.sameTree(x, y)
+	}
+	I["vp:vpFsMutations"] = func(in *Interp, fr *frame, a []Value) Value {
+		// number of successful mutating events recorded since vpTraceBegin
+		n := 0
+		for _, ev := range in.env.FS().trace {
+			if ev.Err == "" {
+				switch ev.Op {
+				case "create", "write", "mkdir", "unlink", "rename", "truncate", "chmod", "symlink":
+					n++
+				}
+			}
+		}
+		return in.intConst(int64(n))
+	}
+}
+
+// validUserName is the schema grammar ^[A-Za-z0-9][-_.@A-Za-z0-9]*$ as a term (engine-side oracle).
+func (in *Interp) validUserName(n Str) *Term {
+	ts := in.ts
+	if len(n.B) == 0 {
+		return ts.False
+	}
+	alnum := func(c *Term) *Term {
+		rng := func(lo, hi byte) *Term { return ts.And(ts.Ule(in.byteConst(lo), c), ts.Ule(c, in.byteConst(hi))) }
+		return ts.Or(rng('a', 'z'), rng('A', 'Z'), rng('0', '9'))
+	}
+	cs := []*Term{alnum(n.B[0])}
+	for _, c := range n.B[1:] {
+		cs = append(cs, ts.Or(alnum(c), ts.Eq(c, in.byteConst('-')), ts.Eq(c, in.byteConst('_')), ts.Eq(c, in.byteConst('.')), ts.Eq(c, in.byteConst('@'))))
+	}
+	return ts.And(cs...)
+}
+
+func (in *Interp) lookupMethodByName(t types.Type, name string) *ssa.Function {
+	ms := in.P.Prog.MethodSets.MethodSet(t)
+	for i := 0; i < ms.Len(); i++ {
+		if ms.At(i).Obj().Name() == name {
+			return in.P.Prog.MethodValue(ms.At(i))
+		}
+	}
+	panic(engineErr("method %s not found on %v", name, t))
+}
+
+func (in *Interp) eofIface() Iface {
+	g := in.P.Pkgs["io"].Var("EOF")
+	return in.load(Ptr{Obj: in.global(g)}, g.Type().(*types.Pointer).Elem()).(Iface)
+}
+
+func (in *Interp) isEOF(e Iface) bool {
+	eof := in.eofIface()
+	return in.Branch(in.equalIfaceSafe(e, eof))
+}
+
+func (fs *vfs) cloneTree(n *inode) *inode {
+	c := &inode{id: n.id, kind: n.kind, data: n.data, perm: n.perm, target: n.target}
+	for _, e := range n.entries {
+		c.entries = append(c.entries, &dirent{name: e.name, ino: fs.cloneTree(e.ino)})
+	}
+	return c
+}
+
+// sameTree builds the condition "a and b have the same entries with the same kinds and contents".
+func (fs *vfs) sameTree(a, b *inode) *Term {
+	in := fs.in
+	ts := in.ts
+	if a == nil || b == nil {
+		return ts.Bool(a == nil && b == nil)
+	}
+	if a.kind != b.kind {
+		return ts.False
+	}
+	switch a.kind {
+	case 'f':
+		return in.strEq(Str{a.data}, Str{b.data})
+	case 'l':
+		return in.strEq(a.target, b.target)
+	case 'd':
+		if len(a.entries) != len(b.entries) {
+			return ts.False
+		}
+		cs := []*Term{}
+		used := make([]bool, len(b.entries))
+		for _, ea := range a.entries {
+			found := false
+			for j, eb := range b.entries {
+				if used[j] {
+					continue
+				}
+				if in.Branch(in.strEq(ea.name, eb.name)) {
+					used[j] = true
+					found = true
+					cs = append(cs, fs.sameTree(ea.ino, eb.ino))
+					break
+				}
+			}
+			if !found {
+				return ts.False
+			}
+		}
+		return ts.And(cs...)
+	}
+	return ts.True
+}
